@@ -334,6 +334,14 @@ def parallel_delay_model(kind="discrete"):
             model([pop], two, [edge("p1/op/r", "p2/op/r_in", 1.5, 0.3, 0.1 if g else None), edge("p1/op/r", "p2/op/r_in", -0.5, 0.5, 0.2 if g else None)]))
 
 
+def mixed_kernel_model():
+    """One merged group of edges in which only SOME edges carry a spread (the others a plain delay, of at least two steps)."""
+    pop = op_li("op", x="r", ins=("r_in",), tau=2.0, x0=0.4, in_defaults={"r_in": 0.0})
+    two = {"p1": dict(ops=["op"]), "p2": dict(ops=["op"], over={"op/tau": 3.0})}
+    return ("G6-delay-only-and-delay-plus-spread-in-one-group", dict(mixed_kernel=True),
+            model([pop], two, [edge("p1/op/r", "p2/op/r_in", 1.5, 0.02, None), edge("p2/op/r", "p1/op/r_in", -0.5, 0.3, 0.15)]))
+
+
 def c04_extra():
     """Vectorisation-specific families: tiny weights (SI units), per-node parameters, two node types with cross fan-in."""
     out = []
@@ -439,6 +447,10 @@ def c06_families():
         # one edge template shared by several vectorised edge groups (three groups; four / five edges with explicit input maps)
         if t_.startswith(("V5-", "V11-", "V12-")):
             out.append((t_.replace("V5-", "O10-").replace("V11-", "O11-").replace("V12-", "O12-"), dict(f_), m_))
+    # delayed edges (discrete) on a merged group: permuted sources with one delay for all, and two delay values
+    for t_, f_, m_ in delay_families("discrete"):
+        if t_.startswith(("D7-", "D6-")):
+            out.append((t_.replace("D7-", "O13-delayed-").replace("D6-", "O14-delayed-"), dict(f_, delayed=True, dt=0.1), m_))
     out.append(("O7-perm-11", dict(population=11), st["F8-perm-11"]))
     nodes_r = {f"n{i}": dict(ops=["opB"], over={"opB/tau": 1.0 + 0.25 * i}) for i in range(12)}
     order = [0, 7, 3, 9, 1, 5, 10, 2, 8, 4, 6, 11]
